@@ -32,7 +32,8 @@ struct LitmusEngine : Engine {
 	void finish() override {
 		auto forbid = [&](bool c, const char *what) { if (c) violation("forbidden_outcome", "%s: %s (obs %llu %llu %llu %llu, memory mode %s)", lnames[id], what, (unsigned long long)obs[1], (unsigned long long)obs[2], (unsigned long long)obs[3], (unsigned long long)obs[4], mem ? "relaxed" : "sc"); };
 		switch (id) {
-		case L_MP_RELACQ: case L_MP_FENCES: case L_MP_RELSEQ_SAMETHREAD: forbid(obs[2] == 100, "reader saw the flag but stale data"); break;
+		case L_MP_RELACQ: case L_MP_FENCES: forbid(obs[2] == 100, "reader saw the flag but stale data"); break;
+		case L_MP_RELSEQ_SAMETHREAD: break; // racy under C++20 (reported by the race detector); no outcome is forbidden
 		case L_SB_RELAXED: if (obs[1] == 0 && obs[2] == 0) { forbid(mem == MEM_SC, "both loads 0 under interleaving semantics"); probe(P_weak[id]); } break;
 		case L_SB_SC: forbid(obs[1] == 0 && obs[2] == 0, "both seq_cst loads returned 0"); break;
 		case L_CORR: forbid(obs[2] == 21 || obs[2] == 10 || obs[2] == 20, "reads of one location went backwards in modification order"); if (obs[2] == 1 || obs[2] == 2 || obs[2] == 12) probe(P_weak[id]); break;
